@@ -360,6 +360,8 @@ def gen_dict_case(rng):
     vf = gen_struct(rng, 5)
     nkeys = rng.randint(2, 5)
     keys = [[sx(rng.getrandbits(64), f) for f in kf] for _ in range(nkeys)]
+    if rng.random() < 0.35:
+        keys[0] = [0] * len(kf)       # the key whose bytes are all zero
     ops = []
     for _ in range(rng.randint(10, 40)):
         k = rng.randrange(nkeys)
